@@ -265,5 +265,10 @@ func main() {
 	for ; hi < nh; hi++ {
 		runHistory(out, hrng, hi)
 	}
+	ct := 150
+	if a.Thorough() {
+		ct = 3000
+	}
+	concurrentMarks(out, rng, ct)
 	out.Flush("random stores: 1..8 label sets (every 40th case 34..73 label sets with a limit of 1..12) with ages {0,5s,60s,1h,-1h,24h}+jitter or all equal, saturating timestamps, expiry marks {0,<0,30s,10m,2h,1ns, threshold +-2s/20s} kept >= 2 s away from the wall-clock threshold, occasional removes, limit 0..n+1; then Store.Gc(); non-trivial = GC removed some but not all entries. Histories (hist/...): the same kind of store, then 2..4 times { Store.Gc(); 0..5 more operations on the same metric: updates whose timestamp moves back beyond / forward past the threshold of the datum's mark or by -1h..+1min, new marks (also 0 and negative), removals, look-ups, label sets that are new or were collected before (every 50th history: 34..63 label sets, limit 1..12, 12..41 operations between passes, mostly new label sets) }, half of them followed by a look-up of every label set; marks within 2 s of their threshold at a pass are moved by a recorded operation; non-trivial = a pass after the first removed some but not all entries; distinct by hash of the case", false)
 }
